@@ -739,6 +739,22 @@ func c15ChildrenOfSelf() []int {
 	return pids
 }
 
+// c15KillHolders kills the detached sleepers started by vsh's spawnhold (they are not children
+// of this process any more).
+func c15KillHolders() {
+	ents, _ := os.ReadDir("/proc")
+	for _, e := range ents {
+		pid, err := strconv.Atoi(e.Name())
+		if err != nil {
+			continue
+		}
+		b, err := os.ReadFile("/proc/" + e.Name() + "/cmdline")
+		if err == nil && strings.Contains(string(b), "vsh\x00sleep:70000") && strings.Contains(string(b), core.BuildDir) {
+			_ = syscall.Kill(pid, syscall.SIGKILL)
+		}
+	}
+}
+
 // c15Blocked: the call is blocked in a child wait when the context fires.
 // Returns false if the watchdog fired (the caller then stops issuing blocked cases).
 func c15BlockedCase(c *core.Ctx, cs c15Case) bool {
@@ -807,12 +823,16 @@ func c15BlockedCase(c *core.Ctx, cs c15Case) bool {
 			for _, pid := range c15ChildrenOfSelf() {
 				_ = syscall.Kill(pid, syscall.SIGKILL)
 			}
+			c15KillHolders()
 			select {
 			case <-done:
 			case <-time.After(10 * time.Second):
 			}
 			return false
 		}
+	}
+	if strings.Contains(cs.Src, "spawnhold") {
+		c15KillHolders()
 	}
 	lat := time.Since(start)
 	obs := res.obs
